@@ -37,20 +37,51 @@ impl<R> FramedRead<R> {
     { unimplemented!() }
 }
 
+/// `a` is a prefix of `b`
+pub open spec fn msgs_prefix(a: Seq<Message>, b: Seq<Message>) -> bool {
+    a.len() <= b.len() && forall|i: int| 0 <= i < a.len() ==> a[i] == b[i]
+}
+/// every message of `s` from index `from` on is a Sync message
+pub open spec fn msgs_all_sync(s: Seq<Message>, from: int) -> bool {
+    forall|i: int| from <= i < s.len() ==> (#[trigger] s[i]) is Sync
+}
 impl<W> FramedWrite<W> {
-    /// messages handed to `send` that were reported as sent
+    /// frames that have been written out to the byte stream (flushed), in order
     pub uninterp spec fn sent(&self) -> Seq<Message>;
+    /// frames accepted by the sink (encoded into its write buffer) but not flushed yet; they never reach the peer unless a
+    /// later `flush`/`send` succeeds (dropping the writer does not flush)
+    pub uninterp spec fn buffered(&self) -> Seq<Message>;
 
     #[verifier::external_body]
     pub fn new(w: W, c: SyncCodec) -> (fw: Self)
-        ensures fw.sent() == Seq::<Message>::empty()
+        ensures fw.sent() == Seq::<Message>::empty(), fw.buffered() == Seq::<Message>::empty()
     { unimplemented!() }
 
-    /// n0_future::SinkExt::send on the framed writer: may fail (peer gone); on success the message is appended
+    /// SinkExt::feed = poll_ready + start_send: the frame is appended to the buffer; nothing is flushed except what
+    /// poll_ready decides to write out under backpressure (so earlier buffered frames may move to `sent`, in order)
+    #[verifier::external_body]
+    pub async fn feed(&mut self, m: Message) -> (r: Result<(), AnyhowError>)
+        ensures
+            msgs_prefix(old(self).sent(), final(self).sent()),
+            r is Ok ==> final(self).sent() + final(self).buffered() =~= (old(self).sent() + old(self).buffered()).push(m),
+            r is Ok ==> final(self).buffered().len() >= 1,
+    { unimplemented!() }
+
+    /// SinkExt::flush: on success everything buffered has been written out
+    #[verifier::external_body]
+    pub async fn flush(&mut self) -> (r: Result<(), AnyhowError>)
+        ensures
+            msgs_prefix(old(self).sent(), final(self).sent()),
+            r is Ok ==> final(self).sent() =~= old(self).sent() + old(self).buffered(),
+            r is Ok ==> final(self).buffered() =~= Seq::<Message>::empty(),
+    { unimplemented!() }
+
+    /// SinkExt::send = feed + flush: may fail (peer gone); on success the frame and everything buffered before it is out
     #[verifier::external_body]
     pub async fn send(&mut self, m: Message) -> (r: Result<(), AnyhowError>)
         ensures
-            r is Ok ==> final(self).sent() == old(self).sent().push(m),
-            r is Err ==> final(self).sent() == old(self).sent(),
+            msgs_prefix(old(self).sent(), final(self).sent()),
+            r is Ok ==> final(self).sent() =~= (old(self).sent() + old(self).buffered()).push(m),
+            r is Ok ==> final(self).buffered() =~= Seq::<Message>::empty(),
     { unimplemented!() }
 }
